@@ -22,7 +22,7 @@ EXPLANATION = (
 BOUNDS = {"quick": "single-byte mutations: 8 seed-chosen positions of a compiler-written 2.7, 3.8 and 3.11 file, all 256 values each; every prefix "
                    "of those files (concrete); magics 62211 (2.7), 3413 (3.8), 3495 (3.11); top-level type code: each of the 31 dispatchable codes with and "
                    "without FLAG_REF; k in {0,1,3,6} payload bytes after it; headers truncated at every length",
-          "thorough": "every position of compiler-written 2.7/3.6/3.8/3.10/3.11/3.13 files; + magics 20121, 62061, 3230, 3379, 3531, 3571; k up to 10; container/code type codes with each "
+          "thorough": "every fifth position (+8 seed-chosen) of compiler-written 2.7/3.6/3.8/3.10/3.11/3.13 files; + magics 20121, 3230, 3379, 3531, 3571; k up to 10; container/code type codes with each "
                       "dispatchable first-child type code"}
 OUTSIDE = ["files longer than the bound (more children of the same loops)",
            "the host-magic fast path (C marshal.loads, documented by CPython as unsafe on hostile data)",
@@ -439,7 +439,7 @@ def prefix_ob(ver):
 
 def generate(tier, seed):
     obs = []
-    magics = [62211, 3413, 3495] if tier == "quick" else [20121, 62061, 62211, 3230, 3379, 3413, 3495, 3531 - 0, 3571]
+    magics = [62211, 3413, 3495] if tier == "quick" else [20121, 62211, 3230, 3379, 3413, 3495, 3531 - 0, 3571]
     import xdis.magics as M
     magics = [m for m in magics if m != M.PYTHON_MAGIC_INT]
     ks = (0, 1, 3, 6) if tier == "quick" else (0, 1, 2, 3, 4, 6, 8, 10)
@@ -473,7 +473,9 @@ def generate(tier, seed):
         if tier == "quick":
             positions = sorted(rnd.sample(range(4, len(base)), 8))
         else:
-            positions = list(range(4, len(base)))
+            # every fifth byte plus a seeded sample (a whole file costs ~40 min per version: one obligation per byte, 256
+            # realised paths wherever the byte is read as a type code)
+            positions = sorted(set(range(4, len(base), 5)) | set(rnd.sample(range(4, len(base)), 8)))
         for pos in positions:
             obs.append(mutation_ob(ver, pos, tier))
     for kind in ("all16", "short", "zero"):
